@@ -59,6 +59,23 @@ def r_exc_breadth(e, R):
             rer = [n for n in g.nodes if n.kind == "stmt" and isinstance(n.ast, ast.Raise) and g.dominates(h, n)]
             R.check(not rer, "R-EXC-BREADTH", "worker: the handler does not re-raise", f.short, "raise in handler",
                     "the task-call handler re-raises: the worker dies on a task exception", e.loc(f, h.ast))
+    # (1b) whatever carries user data back (the result *or* the exception of the task) is sent in a way that survives a pickling
+    # failure: through the safe-send helper or inside a BaseException handler that reports the failure for the same task
+    for n in g.nodes:
+        for c in calls_in(n):
+            if e.receiver_objs(f, c, ("put",)) & a.resq and c.args and isinstance(c.args[0], ast.Call) and \
+                    any(k.arg in ("exception", "result") for k in c.args[0].keywords):
+                hs = _handlers_of(g, n)
+                # accepted: the send sits in a try with a catch-all handler, or it *is* the fallback report inside such a handler
+                # (the try body it reports for contains a send to the same queue)
+                ih = _innermost_handler(e, c, f)
+                tr_ = e.prog.parent.get(id(ih)) if ih is not None else None
+                fallback = ih is not None and isinstance(tr_, ast.Try) and (ih.type is None or norm(ih.type).split(".")[-1] in ("BaseException", "Exception")) and any(
+                    e.receiver_objs(f, c2, ("put",)) & a.resq for s_ in tr_.body for c2 in ast.walk(s_) if isinstance(c2, ast.Call))
+                ok_ = any(_catch_all(h) for h in hs) or fallback
+                R.check(ok_, "R-EXC-BREADTH", "worker: a result item carrying user data is sent pickling-safely", f.short, norm(c)[:70],
+                        "the outcome of a task (here its exception) is put on the result queue bare: if it cannot be pickled the PicklingError leaves the worker loop, the "
+                        "worker dies and the whole pool is flagged broken because of one task", e.loc(f, c))
     # (2) result send helper: pickling failure of the result is converted into an exception result
     helpers = set()
     for n in g.nodes:
@@ -253,6 +270,17 @@ def r_feeder(e, R):
                 f"{norm(c)}; `{ov}` redefined: {[norm(r)[:40] for r in redefs]}" if redefs else norm(c),
                 f"`{ov}` is overwritten (e.g. by its own serialisation) before the hook can be called with it: when the *send* fails the hook gets bytes instead of the "
                 "task, does not recognise it and the task's future is never failed", e.loc(f, redefs[0] if redefs else c))
+    # `except IndexError: pass` is the feeder's "buffer empty" signal: it may cover the pop only.  The serialisation runs the
+    # user's __reduce__ / __getstate__, which may raise IndexError too: that must reach the error path (fail the task's future)
+    for tr_ in [n for n in func_nodes(f) if isinstance(n, ast.Try)]:
+        sw = [h for h in tr_.handlers if h.type is not None and norm(h.type).split(".")[-1] in ("IndexError", "LookupError") and not any(isinstance(b, (ast.Raise, ast.Call)) for s_ in h.body for b in ast.walk(s_))]
+        if not sw:
+            continue
+        inside = [c for s_ in tr_.body for c in ast.walk(s_) if isinstance(c, ast.Call) and (e.callees_of(c) & {"loky.backend.reduction:dumps"} or
+                  (isinstance(c.func, ast.Name) and c.func.id in f.params and c.func.id not in ("close",)))]
+        R.check(not inside, "R-FEEDER", f"{f.short}: the silent `except IndexError` (empty buffer) covers the pop only, not the serialisation / send", f.short,
+                "try: <pop> ... except IndexError: <no report>", "an IndexError raised while pickling a task's arguments (user __reduce__) is swallowed as 'buffer empty': the task "
+                "is dropped silently and its future never resolves", e.loc(f, tr_))
     # on this platform (write lock present) no send happens without the lock
     for pn in popn:
         bare = SC.Facts(posix, [is_sentinel(False)]).find(g, pn, lambda n: n in sends, avoid=lambda n: n in acq or n in heads, use_exc=False)
@@ -493,3 +521,144 @@ def r_cause(e, R):
                 f"{var}.__cause__ = ... {sorted(srcs)}", "the broken-pool exception is raised without the worker's traceback / the un-pickling error that "
                 "explains it", e.loc(wf, n.ast))
     R.floor("R-CAUSE", 6)
+
+
+# ---------------------------------------------------------------------------
+# R-USER-FMT: formatting a user object is running user code
+# ---------------------------------------------------------------------------
+
+def _ancestors(e, node, f):
+    out = []
+    p_ = e.prog.parent.get(id(node))
+    while p_ is not None and p_ is not f.node:
+        out.append(p_)
+        p_ = e.prog.parent.get(id(p_))
+    return out
+
+
+def _innermost_handler(e, node, f):
+    for p_ in _ancestors(e, node, f):
+        if isinstance(p_, ast.ExceptHandler):
+            return p_
+    return None
+
+
+def _inside_node(e, node, anc):
+    if anc is None:
+        return False
+    p_ = node
+    while p_ is not None:
+        if p_ is anc:
+            return True
+        p_ = e.prog.parent.get(id(p_))
+    return False
+
+
+def r_user_fmt(e, R):
+    """An f-string field, str(), repr(), format() or a %-format applied to an object that comes from the user -- the task
+    (function, arguments: anything hanging off a call item / work item), the exception a task raised, its result -- calls
+    the user's __repr__ / __str__ / __format__.  On the feeder thread, in the worker loop and on the manager thread this is
+    user code like any other: it may raise, and an exception there kills the thread / the worker (the pool breaks or hangs
+    because of one faulty task).  Such formatting must sit in the body of a try with a broad handler, or not happen at all.
+    Integer bookkeeping fields of loky's own items (work ids) are exempt."""
+    a = e.anchors
+    SAFE_ATTRS = {"work_id"}
+
+    def tainted_names(f):
+        """local names of f that hold user objects, by role"""
+        out = set()
+        if f.qualname == a.worker_main.qualname:
+            for n in func_nodes(f):
+                if isinstance(n, ast.Assign) and isinstance(n.targets[0], ast.Name) and isinstance(n.value, ast.Call):
+                    if e.receiver_objs(f, n.value, ("get",)) & a.callq:
+                        out.add(n.targets[0].id)           # the call item
+            item = set(out)
+            for n in func_nodes(f):
+                if isinstance(n, ast.Assign) and isinstance(n.targets[0], ast.Name) and isinstance(n.value, ast.Call) and isinstance(n.value.func, ast.Name) \
+                        and n.value.func.id in item:
+                    out.add(n.targets[0].id)               # the result of the task
+                if isinstance(n, ast.Try) and any(isinstance(c, ast.Call) and isinstance(c.func, ast.Name) and c.func.id in item for s_ in n.body for c in ast.walk(s_)):
+                    out |= {h.name for h in n.handlers if h.name}   # the exception the task raised
+        if f.qualname in a.feeder_onerror and f.qualname.startswith(PE + ":"):
+            out |= set(f.params[1:3])                      # (exception, failed object)
+        if f.qualname == a.feeder.qualname:
+            for n in func_nodes(f):
+                if isinstance(n, ast.Assign) and isinstance(n.targets[0], ast.Name) and isinstance(n.value, ast.Call) and isinstance(n.value.func, ast.Name) \
+                        and any(isinstance(d, ast.Assign) and isinstance(d.targets[0], ast.Name) and d.targets[0].id == n.value.func.id and isinstance(d.value, ast.Attribute)
+                                and d.value.attr in ("popleft", "pop") for d in func_nodes(f)):
+                    out.add(n.targets[0].id)
+            out |= {h.name for n in func_nodes(f) if isinstance(n, ast.Try) for h in n.handlers if h.name}
+        if f.qualname in a.manager_funcs:
+            for n in func_nodes(f):
+                if isinstance(n, ast.Assign) and isinstance(n.value, ast.Call) and e.receiver_objs(f, n.value, ("pop", "popitem", "get")) & a.pending:
+                    for t in ast.walk(n.targets[0]):
+                        if isinstance(t, ast.Name) and t.id != "_":
+                            out.add(t.id)
+                if isinstance(n, ast.Assign) and isinstance(n.value, ast.Subscript) and e.objs(f, n.value.value) & a.pending and isinstance(n.targets[0], ast.Name):
+                    out.add(n.targets[0].id)
+        return out
+
+    def mentions(x, names):
+        """the formatted expression evaluates to a tainted object or to something hanging off it (not a safe scalar field)"""
+        if isinstance(x, ast.Name):
+            return x.id in names
+        if isinstance(x, ast.Attribute):
+            if x.attr in SAFE_ATTRS or x.attr.startswith("__"):
+                return False
+            return mentions(x.value, names)
+        if isinstance(x, ast.Call) and isinstance(x.func, ast.Name) and x.func.id in ("type", "len", "id", "int", "bool", "isinstance"):
+            return False
+        if isinstance(x, ast.Subscript):
+            return mentions(x.value, names)
+        return False
+
+    def protected(f, node):
+        child = node
+        p_ = e.prog.parent.get(id(node))
+        while p_ is not None and p_ is not f.node:
+            if isinstance(p_, ast.Try) and any(child is s_ for s_ in p_.body) and any(h.type is None or norm(h.type) in ("Exception", "BaseException") for h in p_.handlers):
+                return True
+            child = p_
+            p_ = e.prog.parent.get(id(p_))
+        return False
+    n_funcs = n_sinks = 0
+    funcs = [a.worker_main, a.feeder] + [e.prog.funcs[q] for q in a.feeder_onerror if q in e.prog.funcs] + [e.prog.funcs[q] for q in sorted(a.manager_funcs)]
+    seen = set()
+    for f in funcs:
+        if f.qualname in seen or f.module.name == "__user__":
+            continue
+        seen.add(f.qualname)
+        names = tainted_names(f)
+        if not names:
+            continue
+        n_funcs += 1
+        for n in func_nodes(f):
+            sink = None
+            if isinstance(n, ast.FormattedValue) and mentions(n.value, names):
+                sink = n.value
+            elif isinstance(n, ast.Call) and isinstance(n.func, ast.Name) and n.func.id in ("str", "repr", "format", "ascii") and n.args and mentions(n.args[0], names):
+                sink = n.args[0]
+            elif isinstance(n, ast.BinOp) and isinstance(n.op, ast.Mod) and isinstance(n.left, ast.Constant) and isinstance(n.left.value, str) \
+                    and any(mentions(x, names) for x in ([n.right] if not isinstance(n.right, ast.Tuple) else n.right.elts)):
+                sink = n.right
+            if sink is None:
+                continue
+            # a message written on a path that gives up anyway (interpreter exiting: the thread returns right after) loses nothing
+            # if the formatting raises
+            g_ = e.cfg(f)
+            st_ = stmt_of(e, f, n)
+            giving_up = any(t.kind == "test" and any(norm(c.func).endswith("is_exiting") for c in calls_in(t)) and any(g_.on_branch(cn, t, "T") for cn in g_.nodes_of(st_))
+                            for t in g_.nodes)
+            if giving_up:
+                R.ok("R-USER-FMT", f"{f.short}: `{norm(n)[:40]}` is on the interpreter-exiting path (the thread ends there either way)", e.loc(f, n))
+                continue
+            n_sinks += 1
+            R.check(protected(f, n), "R-USER-FMT", f"{f.short}: formatting of the user object `{norm(sink)[:30]}` is inside a broad try", f.short, norm(n)[:60],
+                    f"`{norm(sink)[:40]}` is a user object (a task, its arguments, its exception or its result): formatting it runs the user's __repr__/__str__ outside "
+                    "any handler on a thread / in a loop that is not the user's: if it raises, the feeder thread, the worker or the manager thread dies because of one "
+                    "faulty task (futures hang, or a healthy pool is flagged broken)", e.loc(f, n))
+    R.info["user_fmt"] = {"functions_with_user_values": n_funcs, "formatting_sites": n_sinks}
+    if n_funcs < 3:
+        raise AnalysisError(f"R-USER-FMT: only {n_funcs} functions with user-object locals recognised (worker loop, feeder, feeder hook, manager expected)")
+    if n_sinks == 0:
+        R.ok("R-USER-FMT", f"no formatting of a user object in the {n_funcs} functions that hold one (worker loop, feeder, feeder hook, manager)", None)
